@@ -35,9 +35,12 @@ def apply_patch(scratch, patch_path):
     return r.returncode == 0, r.stdout
 
 
-def run_check_json(prop, repo):
+def run_check_json(prop, repo, worker=None):
+    env = dict(os.environ)
+    if worker is not None:
+        env["CAO_WORKER"] = str(worker)
     r = subprocess.run([sys.executable, os.path.join(VERIF, "check"), prop, "--repo", repo, "--json", "--no-evidence"],
-                       stdout=subprocess.PIPE, stderr=subprocess.PIPE, text=True, cwd=VERIF)
+                       stdout=subprocess.PIPE, stderr=subprocess.PIPE, text=True, cwd=VERIF, env=env)
     if r.returncode != 0:
         return None, (r.stdout + r.stderr)[-1500:]
     try:
@@ -50,7 +53,7 @@ def violation_keys(results):
     return set(x["key"] for x in results if x["status"] == "violation")
 
 
-def run_one(m, baseline_cache):
+def run_one(m, baseline_cache, worker=None):
     prop = m["property"]
     t0 = time.time()
     out = {"name": m["name"], "property": prop, "kind": m.get("kind", "mutant"), "expect": m.get("expect", []), "pass": False, "detail": ""}
@@ -67,7 +70,7 @@ def run_one(m, baseline_cache):
         if not okp:
             out["detail"] = "patch does not apply to the current tree: " + msg[-300:]
             return out
-        res, err = run_check_json(prop, scratch)
+        res, err = run_check_json(prop, scratch, worker)
         if res is None:
             out["detail"] = "check failed on the mutated tree (does it compile?): " + err[-600:]
             return out
@@ -87,10 +90,42 @@ def run_one(m, baseline_cache):
     return out
 
 
+WORKERS = max(1, min(8, (os.cpu_count() or 2) // 2))
+
+
+def run_many(ms, cache):
+    """run the mutants with a small pool; each worker owns a cargo target directory (extract.py: CAO_WORKER)"""
+    import queue
+    import threading
+    from concurrent.futures import ThreadPoolExecutor
+    # baselines first (sequential, cached facts of /repo)
+    for p in sorted(set(m["property"] for m in ms)):
+        if p not in cache:
+            base, err = run_check_json(p, "/repo")
+            cache[p] = violation_keys(base) if base is not None else None
+            if base is None:
+                cache[p + ":err"] = err
+    ids = queue.Queue()
+    for i in range(WORKERS):
+        ids.put(i)
+
+    def job(m):
+        if cache.get(m["property"]) is None:
+            return {"name": m["name"], "property": m["property"], "kind": m.get("kind", "mutant"), "expect": m.get("expect", []), "pass": False,
+                    "detail": "baseline check failed: " + cache.get(m["property"] + ":err", "")}
+        w = ids.get()
+        try:
+            return run_one(m, cache, worker=w)
+        finally:
+            ids.put(w)
+    with ThreadPoolExecutor(max_workers=WORKERS) as ex:
+        return list(ex.map(job, ms))
+
+
 def run_for_property(prop, only=None):
     ms = [m for m in load_index() if m["property"] == prop and (only is None or m["name"] in only)]
     cache = {}
-    results = [run_one(m, cache) for m in ms]
+    results = run_many(ms, cache)
     return {"mutants": sum(1 for r in results if r["kind"] != "equivalent"), "equivalents": sum(1 for r in results if r["kind"] == "equivalent"),
             "passed": sum(1 for r in results if r["pass"]), "results": results}
 
@@ -98,9 +133,10 @@ def run_for_property(prop, only=None):
 if __name__ == "__main__":
     props = sys.argv[1:] or sorted(set(m["property"] for m in load_index()))
     bad = 0
-    for p in props:
-        r = run_for_property(p)
-        for x in r["results"]:
-            print("%-4s %-44s %-10s %s  %s" % (p, x["name"], x["kind"], "PASS" if x["pass"] else "FAIL", x["detail"][:200]))
-            bad += 0 if x["pass"] else 1
+    ms = [m for m in load_index() if m["property"] in props]
+    t0 = time.time()
+    for x in run_many(ms, {}):
+        print("%-4s %-44s %-10s %s  %s" % (x["property"], x["name"], x["kind"], "PASS" if x["pass"] else "FAIL", x["detail"][:200]))
+        bad += 0 if x["pass"] else 1
+    print("%d mutants/equivalents, %d failed, %.0fs, %d workers" % (len(ms), bad, time.time() - t0, WORKERS))
     sys.exit(1 if bad else 0)
